@@ -36,9 +36,4 @@ MCMolsSmall == Mols1 \cup { <<Res("T5", C1, TRUE), Res("T4", C2, TRUE)>>, <<Res(
 MCFudges == { <<2, 5>>, <<1, 1>>, <<5, 4>> }
 MCFudgesSmall == { <<2, 5>> }
 MCAngles == { <<x, y, z>> : x \in 0..3, y \in 0..3, z \in 0..3 }
-\* orthogonal integer matrices, by brute force over all 3^9 matrices with entries -1, 0, 1 (TLC evaluates this constant once at start-up, about 6 s)
-OrthoBrute == { M \in { << <<a, b, c>>, <<d, e, f>>, <<g, h, i>> >> :
-                        a \in Trits, b \in Trits, c \in Trits, d \in Trits, e \in Trits, f \in Trits,
-                        g \in Trits, h \in Trits, i \in Trits } : AsTuple(MatMul(M, Transp(M))) = Id3 }
-BruteOnce == (placed = 0 /\ done = {}) => (OrthoBrute = OrthoLattice)
 =============================================================================
